@@ -54,8 +54,13 @@ Rejecting == Faults \ {"none", "val_dashline_in_narrative", "mur_with_colon_digi
 
 \* addr: the addresses in blocks 1 and 2 carry the default branch XXX, or a real branch code
 Addrs == {"xxx", "branch"}
-VARIABLES b2, b3, b5, fault, addr
-vars == <<b2, b3, b5, fault, addr>>
+\* tagval: the shape of the structured block-3 values (165 / 433 / 434: code word with free text; 423: date-time):
+\* long = code word, slash and text with further slashes (hundredths present); code = the code word alone (no
+\* hundredths); short = code word, slash and a single character
+TagVals == {"long", "code", "short"}
+Structured == {"165", "433", "434", "423"}
+VARIABLES b2, b3, b5, fault, addr, tagval
+vars == <<b2, b3, b5, fault, addr, tagval>>
 
 \* a block is absent (empty tag set) or present with 1..MaxTags tags or with all tags
 Small(S) == {x \in SUBSET S : Cardinality(x) <= MaxTags} \cup {S}
@@ -66,6 +71,8 @@ Init ==
   /\ b5 \in Small(B5Tags)
   /\ fault \in Faults
   /\ addr \in Addrs
+  /\ tagval \in TagVals
+  /\ (tagval # "long") => (fault = "none" /\ addr = "xxx" /\ b3 \cap Structured # {} /\ b5 = {} /\ b2 \in {"I_P", "O_P"})
   /\ (addr = "branch") => (fault = "none" /\ Cardinality(b3) <= 1 /\ Cardinality(b5) <= 1)
   /\ fault # "none" => (b3 \in {{}, {"108"}} /\ b5 \in {{}, {"CHK"}})
   /\ (fault \in {"b2_I_short", "b2_I_partial_obsolescence", "b2_I_trailing"}) => b2 \in {"I_P", "I_PM", "I_PMOOO"}
@@ -84,6 +91,6 @@ ValuesDoNotMoveBoundaries ==
      LET m2 == [i \in 1..Len(m) |-> IF m[i] = "c" THEN "x" ELSE m[i]] IN
        Len(Scan(m).blocks) = Len(Scan(m2).blocks)
 
-Case == [b2 |-> b2, b3 |-> b3, b5 |-> b5, fault |-> fault, addr |-> addr, expect |-> Expect]
+Case == [b2 |-> b2, b3 |-> b3, b5 |-> b5, fault |-> fault, addr |-> addr, tagval |-> tagval, expect |-> Expect]
 Emit == EmitCases => PrintT(ToJson(Case))
 =============================================================================
